@@ -1,6 +1,6 @@
 //! Abstract models: text form used in case lines, bincode mirror structs (so every model reaches the real
 //! code through the public `Model::read_slice`), brute-force specification of the scores, generators.
-use bincode::Encode;
+use bincode::{Decode, Encode};
 
 use crate::util::{hexs, unhexs, Rng};
 
@@ -366,38 +366,38 @@ impl AbsModel {
     }
 }
 
-#[derive(Encode)]
+#[derive(Encode, Decode)]
 struct NgramS {
     ngram: String,
     weights: Vec<i32>,
 }
-#[derive(Encode)]
+#[derive(Encode, Decode)]
 struct NgramT {
     ngram: Vec<u8>,
     weights: Vec<i32>,
 }
-#[derive(Encode)]
+#[derive(Encode, Decode)]
 struct WordM {
     word: String,
     weights: Vec<i32>,
     comment: String,
 }
-#[derive(Encode)]
+#[derive(Encode, Decode)]
 struct TagWeightM {
     rel_position: u8,
     weights: Vec<i32>,
 }
-#[derive(Encode)]
+#[derive(Encode, Decode)]
 struct TagNgramS {
     ngram: String,
     weights: Vec<TagWeightM>,
 }
-#[derive(Encode)]
+#[derive(Encode, Decode)]
 struct TagNgramT {
     ngram: Vec<u8>,
     weights: Vec<TagWeightM>,
 }
-#[derive(Encode)]
+#[derive(Encode, Decode)]
 struct TagModelM {
     token: String,
     tags: Vec<Vec<String>>,
@@ -405,7 +405,7 @@ struct TagModelM {
     type_ngram_model: Vec<TagNgramT>,
     bias: Vec<i32>,
 }
-#[derive(Encode)]
+#[derive(Encode, Decode)]
 struct ModelDataM {
     char_ngram_model: Vec<NgramS>,
     type_ngram_model: Vec<NgramT>,
@@ -414,6 +414,70 @@ struct ModelDataM {
     char_window_size: u8,
     type_window_size: u8,
     tag_models: Vec<TagModelM>,
+}
+
+impl AbsModel {
+    /// decodes a model file with the harness's own mirror of the wire format
+    pub fn from_bytes(bytes: &[u8]) -> Option<AbsModel> {
+        let body = bytes.strip_prefix(MODEL_MAGIC)?;
+        let (d, _): (ModelDataM, usize) = bincode::decode_from_slice(body, bincode::config::standard()).ok()?;
+        Some(AbsModel {
+            char_w: d.char_window_size,
+            type_w: d.type_window_size,
+            bias: d.bias,
+            char_ngrams: d.char_ngram_model.into_iter().map(|x| (x.ngram, x.weights)).collect(),
+            type_ngrams: d.type_ngram_model.into_iter().map(|x| (x.ngram, x.weights)).collect(),
+            dict: d.dict_model.into_iter().map(|x| (x.word, x.weights, x.comment)).collect(),
+            tag_models: d
+                .tag_models
+                .into_iter()
+                .map(|t| AbsTagModel {
+                    token: t.token,
+                    tags: t.tags,
+                    char_ngrams: t
+                        .char_ngram_model
+                        .into_iter()
+                        .map(|g| TagNgram { ngram: g.ngram, weights: g.weights.into_iter().map(|w| (w.rel_position, w.weights)).collect() })
+                        .collect(),
+                    type_ngrams: t
+                        .type_ngram_model
+                        .into_iter()
+                        .map(|g| TagNgram { ngram: g.ngram, weights: g.weights.into_iter().map(|w| (w.rel_position, w.weights)).collect() })
+                        .collect(),
+                    bias: t.bias,
+                })
+                .collect(),
+        })
+    }
+}
+
+/// every weight stored in a model file
+pub fn all_weights(bytes: &[u8]) -> Option<Vec<i32>> {
+    let m = AbsModel::from_bytes(bytes)?;
+    let mut v = vec![m.bias];
+    for (_, w) in &m.char_ngrams {
+        v.extend(w);
+    }
+    for (_, w) in &m.type_ngrams {
+        v.extend(w);
+    }
+    for (_, w, _) in &m.dict {
+        v.extend(w);
+    }
+    for t in &m.tag_models {
+        v.extend(&t.bias);
+        for g in &t.char_ngrams {
+            for (_, w) in &g.weights {
+                v.extend(w);
+            }
+        }
+        for g in &t.type_ngrams {
+            for (_, w) in &g.weights {
+                v.extend(w);
+            }
+        }
+    }
+    Some(v)
 }
 
 // ------------------------------------------------------------------------------------------------
